@@ -48,7 +48,7 @@ ROOT = os.path.dirname(os.path.dirname(os.path.abspath(__file__)))
 NCPU = min(16, os.cpu_count() or 1)
 MODULE, CFG = "MxExportTrace", "MxExportTrace.cfg"
 
-SIZES = {"quick": {"programs": 150}, "thorough": {"programs": 2400}}
+SIZES = {"quick": {"programs": 150}, "thorough": {"programs": 2100}}
 CLASSES = ["static", "derived", "instance", "instance_child", "nested"]
 
 ASSUMPTIONS = [
@@ -138,6 +138,9 @@ def case_hash(tr):
 
 def save_replay(tr, labels):
     d = os.path.join(ROOT, "replays", "C15")
+    if os.environ.get("VERIF_REPO"):       # mutation testing: keep the repository's replays clean
+        import tempfile
+        d = os.path.join(tempfile.gettempdir(), "mxv_c15_mutant_replays")
     os.makedirs(d, exist_ok=True)
     path = os.path.join(d, case_hash(tr) + ".json")
     variant = {"name": tr["hdr"]["variant"], "tmap": tr["hdr"]["tmap"], "pick": tr["hdr"]["pick"],
